@@ -574,7 +574,7 @@ class J1939_22:
             if num_segments == 0:
                 # SAE J1939/22
                 # receiver requests a pause
-                self._snd_buffer[buffer_hash]['deadline'] = time.time() + self.Timeout.Th
+                self._snd_buffer[buffer_hash]['deadline'] = time.time() + self.Timeout.T4
                 self.__job_thread_wakeup()
                 return
 
